@@ -136,3 +136,37 @@ contract(CONN + '.receive_data', props=['C17', 'C18', 'C19', 'C21', 'C29'],
               ('connection-closed', 'implies(pre_ok, self.state_machine.state.value == C_CLOSED)', ['C18', 'C19']),
               ('invalid-preface-emits-nothing', 'implies(not pre_ok, g_nframes == n0)', ['C18'])],
     canary='False')
+
+
+# ---------------------------------------------------------------------------
+# C21 lemma L1 (DESIGN 4 C21): feeding a || b in two calls of add_data equals feeding it in one.  A lemma over
+# add_data's FUNCTIONAL postcondition (proved above on the real body): with k = min(len(preamble), len(x)) the call
+# succeeds iff preamble[:k] == x[:k] and then preamble' = preamble[k:], data' = data ++ x[k:].  Three length cases
+# x three goals; cvc5 decides each in about a second (z3 leaves most unknown).
+from h2vc.spec import zlemma
+
+
+def _split_lemma(case, goal):
+    def build():
+        P, D, a, b = z3.Strings('preamble data a b')
+
+        def step(P, D, x):
+            k = z3.If(z3.Length(P) < z3.Length(x), z3.Length(P), z3.Length(x))
+            return (z3.SubString(P, 0, k) == z3.SubString(x, 0, k), z3.SubString(P, k, z3.Length(P) - k),
+                    z3.Concat(D, z3.SubString(x, k, z3.Length(x) - k)))
+        ok1, P1, D1 = step(P, D, a)
+        ok2, P2, D2 = step(P1, D1, b)
+        okc, Pc, Dc = step(P, D, z3.Concat(a, b))
+        la, lb, lp = z3.Length(a), z3.Length(b), z3.Length(P)
+        cases = {'first-chunk-covers-the-preface': la >= lp, 'second-chunk-completes-the-preface': z3.And(la < lp, la + lb >= lp),
+                 'preface-still-incomplete': la + lb < lp}
+        goals = {'same-verdict': z3.And(ok1, ok2) == okc, 'same-remaining-preface': z3.Implies(okc, P2 == Pc),
+                 'same-buffered-bytes': z3.Implies(okc, D2 == Dc)}
+        return [cases[case]], goals[goal]
+    return build
+
+
+for _c in ('first-chunk-covers-the-preface', 'second-chunk-completes-the-preface', 'preface-still-incomplete'):
+    for _g in ('same-verdict', 'same-remaining-preface', 'same-buffered-bytes'):
+        zlemma('add_data-split[%s,%s]' % (_c, _g), ['C21'], _split_lemma(_c, _g), prefer='cvc5',
+               note='add_data(a); add_data(b) and add_data(a + b) from equal buffer states: %s, case %s' % (_g, _c))
